@@ -33,11 +33,11 @@ B = [
         #  otherwise flush older writes first and leave its own writes buffered right after a flush -- C18 reports that)
         (SQ, "        self.conn.executemany(query, event_rows)\n        self.conditional_commit(len(event_rows))", "        if event_rows:\n            self.conn.executemany(query, event_rows)\n            self.conditional_commit(len(event_rows))\n\n        # Then, upsert events with id's set\n        events_upsert = [e for e in events if e.id is not None]\n        for e in events_upsert:\n            self.replace(bucket_id, e.id, e)"),
     ]),
-    # not benign for C14: after a migration the last bucket's events then stay buffered across "served reads, exited
-    # without shutdown" -- C14 is expected to report it, every other check must stay silent
+    # (was not benign for C14 while the migration left its last bucket's events buffered; since fix f11005a commits
+    #  right after the migration it is benign for every check)
     ("reads_do_not_flush", [
         (SQ, "            limit = -1\n        self.commit()\n        c = self.conn.cursor()", "            limit = -1\n        c = self.conn.cursor()"),
-    ], {"exclude": ["C14"]}),
+    ]),
     # C14 compares the migrated metadata with the legacy store's (name None there): excluded
     ("sqlite_name_defaults_to_id", [(SQ, "            [\n                bucket_id,\n                name,\n                type_id,", "            [\n                bucket_id,\n                name or bucket_id,\n                type_id,")], {"exclude": ["C14"]}),
     ("memory_name_none", [(MEM, "        if not name:\n            name = bucket_id\n", "")]),
